@@ -9,6 +9,7 @@ from ..nf import NF, Atom, Undecided, app, atoms_of, lift, nf_equal, single_atom
 from ..values import NONE, Cond, ListV, NoneV, Num, ObjV, OpaqueV, SliceV, StrV, TupleV, valkey
 from .c02 import call_roles, find_driver_call
 from .common import (
+    is_data_src,
     ABSTRACT_SUMMARIES,
     N,
     Pdim,
@@ -77,7 +78,7 @@ def check_transform(ctx, drv, roles):
         args = {}
         for p in drv.params:
             src = roles.get(p, "")
-            if src.endswith(".values"):
+            if is_data_src(src):
                 args[p] = data_sym(ex)
             elif src.startswith("self._"):
                 args[p] = abstract_scorer(ex, ctx.P, BCS, "score", width=3)
